@@ -10,7 +10,12 @@ All statements are about the executable model `Dino.Tree` (tied to `dinosaur/pyt
 correspondence check of `harness/props/C19.py`).
 
 * Keys are lists of characters of an arbitrary type with decidable equality, the separator is one
-  character; a dictionary is the list of its `(key, value)` pairs in insertion order, `Dict.NoDup`
+  character (`sep : α`, a single symbol). **Every dictionary theorem below (T19.1 and
+  `replace_preserves_structure`) is for one-character separators only**: the API takes `sep: str`, and for a separator of two or more characters the real
+  code does not round-trip keys that end / start with a part of the separator
+  (`flatten_dict({'a:': {'b': 1}}, sep='::')` gives `{'a:::b': 1}`, which `unflatten_dict` reads as
+  `{'a': {':b': 1}}`): known finding `multichar-separator-overlap`, measured by
+  `harness/props/C19.py` on the real code, outside the model; a dictionary is the list of its `(key, value)` pairs in insertion order, `Dict.NoDup`
   says that keys are distinct at every level (a genuine Python dictionary), `Dict.SepFree sep` that
   no key contains the separator.
 * `look d p` is the terminal lookup of the path `p` (`some (some b)`: leaf `b`, `some none`: empty
@@ -28,12 +33,13 @@ section Dicts
 variable {α : Type} [DecidableEq α] {β : Type}
 
 /-- `sep.join(ks).split(sep) == ks` for every non-empty list of separator-free keys
- (empty keys allowed) -/
+ (empty keys allowed); one-character separator (`sep : α` is a single symbol): for a multi-character
+ `sep` the statement is false (`'::'.join(['a:', 'b']).split('::') == ['a', ':b']`) -/
 theorem split_join (sep : α) (ks : List (List α)) (hne : ks ≠ []) (hk : ∀ k ∈ ks, sep ∉ k) :
     splitOn sep (joinSep sep ks) = ks :=
   splitOn_joinSep sep ks hne hk
 
-/-- `sep.join(s.split(sep)) == s` for every string -/
+/-- `sep.join(s.split(sep)) == s` for every string (one-character separator) -/
 theorem join_split (sep : α) (s : List α) : joinSep sep (splitOn sep s) = s :=
   joinSep_splitOn sep s
 
@@ -44,21 +50,25 @@ theorem pyEq_of_look_eq [DecidableEq β] (d e : Dict α β) (hd : d.NoDup) (he :
 
 /-- `flatten_dict` never raises on a genuine separator-free dictionary and returns, in tree order,
  one item `sep.join(path) ↦ leaf` per leaf and one empty key `sep.join(path)` per empty
- sub-dictionary; all these keys are distinct -/
+ sub-dictionary; all these keys are distinct (one-character separator: with a multi-character `sep`
+ the flattened keys of `{'a:': {'b': 1}}` and `{'a': {':b': 1}}` coincide) -/
 theorem flatten_ok (sep : α) (d : Dict α β) (hs : d.SepFree sep) (hn : d.NoDup) :
     flatten sep d = .ok (leafItems sep none d.terms, emptyKeys sep none d.terms) ∧
     ((leafItems sep none d.terms).map Prod.fst ++ emptyKeys sep none d.terms).Nodup :=
   ⟨flatten_eq sep d hs hn, (d.goodTerms sep hs hn).keys_nodup none⟩
 
 /-- conversely `flatten_dict` returns only when no key at any level contains the separator
- (for any `.items()`, repeated keys included) -/
+ (for any `.items()`, repeated keys included; one-character separator) -/
 theorem flatten_ok_only_if_sepFree (sep : α) (d : Dict α β) (r : Flat α β) (h : flatten sep d = .ok r) :
     d.SepFree sep :=
   flatten_sepFree sep d r h
 
-/-- **round trip**: for every genuine nested dictionary whose keys avoid the separator (empty keys,
- empty sub-dictionaries at any depth, shared prefixes allowed) `unflatten_dict(*flatten_dict(d))`
- returns a dictionary that is Python-equal to `d` (same terminal paths, same leaves) -/
+/-- **round trip, one-character separators** (`sep : α` is a single symbol): for every genuine nested
+ dictionary whose keys avoid the separator (empty keys, empty sub-dictionaries at any depth, shared
+ prefixes allowed) `unflatten_dict(*flatten_dict(d))` returns a dictionary that is Python-equal to
+ `d` (same terminal paths, same leaves).  Not claimed for `sep: str` of two or more characters, where
+ the real code fails on keys ending / starting with a part of the separator (known finding
+ `multichar-separator-overlap`: `{'a:': {'b': 1}}` with `sep='::'` comes back as `{'a': {':b': 1}}`) -/
 theorem unflatten_flatten [DecidableEq β] (sep : α) (d : Dict α β) (hs : d.SepFree sep) (hn : d.NoDup) :
     ∃ fl r, flatten sep d = .ok fl ∧ unflatten sep fl.1 fl.2 = .ok r ∧ r.NoDup ∧
       (∀ p, look r p = look d p) ∧ r.pyEq d = true := by
@@ -111,7 +121,8 @@ theorem old_flatten_loses_empty_key_level (sep : α) (k : List α) (b : β) (hk 
 
 /-! ## T19.2 `replace_with_matching_or_default` -/
 
-/-- whenever `replace_with_matching_or_default(x, replace, default, check)` returns, the result has
+/-- (one-character separator; the code always uses the default `'&'` here)
+ whenever `replace_with_matching_or_default(x, replace, default, check)` returns, the result has
  the structure of `x` (same leaf paths, same empty sub-dictionaries: the trees with all leaves
  erased are Python-equal), and the leaf at `path` is `flat_replace.get(sep.join(path), default)` -/
 theorem replace_preserves_structure (sep : α) (x repl : Dict α β) (dflt : β) (check : Bool)
@@ -151,6 +162,40 @@ theorem unpack_pack (leaves : List (List (List K))) (arr : List (List K))
       have hm : (leaves.map List.length).isEmpty = false := by cases leaves <;> simp_all
       simp [unpack, hm, splitIdx, cumsum, this]
     · simp at h
+
+/-- a list whose entries all equal `w` passes the `allSame` test -/
+theorem allSame_of_forall_eq (l : List Nat) (w : Nat) (h : ∀ a ∈ l, a = w) : allSame l = true := by
+  cases l with
+  | nil => rfl
+  | cons a as =>
+    have ha : a = w := h a (by simp)
+    simp only [allSame, List.all_eq_true, beq_iff_eq]
+    intro x hx
+    rw [ha]
+    exact h x (by simp [hx])
+
+/-- the forward operation succeeds: `pack_pytree` returns the concatenation on every non-empty list
+ of leaves whose slices all have the same width `w` (leaves that agree off the axis; any number of
+ leaves, any sizes along the axis, zero included).  The model compares flattened slice widths (the
+ product of the off-axis sizes); `jnp.concatenate` compares them axis by axis, which is stricter and
+ is exercised by the correspondence check only -/
+theorem pack_ok (leaves : List (List (List K))) (hl : leaves ≠ []) (w : Nat)
+    (hw : ∀ l ∈ leaves, ∀ row ∈ l, row.length = w) : pack leaves = .ok (some leaves.flatten) := by
+  have hne : leaves.isEmpty = false := by cases leaves <;> simp_all
+  have hs : allSame (rowWidths leaves) = true := by
+    apply allSame_of_forall_eq _ w
+    intro a ha
+    simp only [rowWidths, List.mem_map, List.mem_flatten] at ha
+    obtain ⟨row, ⟨l, hl', hrow⟩, rfl⟩ := ha
+    exact hw l hl' row hrow
+  simp [pack, hne, hs]
+
+/-- unconditional form of `unpack_pack`: on every non-empty list of leaves with one slice width
+ `pack_pytree` returns and `unpack_to_pytree` gives the leaves back -/
+theorem unpack_pack_consistent (leaves : List (List (List K))) (hl : leaves ≠ []) (w : Nat)
+    (hw : ∀ l ∈ leaves, ∀ row ∈ l, row.length = w) :
+    ∃ arr, pack leaves = .ok (some arr) ∧ unpack arr (leaves.map List.length) = .ok leaves :=
+  ⟨_, pack_ok leaves hl w hw, unpack_pack leaves _ (pack_ok leaves hl w hw)⟩
 
 /-- `pack_pytree(unpack_to_pytree(arr, shapes)) == arr` for every array and every non-empty list of
  sizes, honest or not (`jnp.split` clips) -/
@@ -197,6 +242,26 @@ theorem unstack_stack (leaves : List (List K)) (arr : List (List K))
       simp [unstack, sections_flatten]
     · simp at h
 
+/-- the forward operation succeeds: `stack_pytree` returns on every non-empty list of leaves of the
+ same (flattened) size `w` -/
+theorem stack_ok (leaves : List (List K)) (hl : leaves ≠ []) (w : Nat) (hw : ∀ l ∈ leaves, l.length = w) :
+    stack leaves = .ok (some leaves) := by
+  have hne : leaves.isEmpty = false := by cases leaves <;> simp_all
+  have hs : allSame (leaves.map List.length) = true := by
+    apply allSame_of_forall_eq _ w
+    intro a ha
+    simp only [List.mem_map] at ha
+    obtain ⟨l, hl', rfl⟩ := ha
+    exact hw l hl'
+  simp [stack, hne, hs]
+
+/-- unconditional form of `unstack_stack`: on every non-empty list of leaves of one size
+ `stack_pytree` returns and `unstack_to_pytree` gives the leaves back -/
+theorem unstack_stack_consistent (leaves : List (List K)) (hl : leaves ≠ []) (w : Nat)
+    (hw : ∀ l ∈ leaves, l.length = w) :
+    ∃ arr, stack leaves = .ok (some arr) ∧ unstack arr leaves.length = .ok leaves :=
+  ⟨_, stack_ok leaves hl w hw, unstack_stack leaves _ (stack_ok leaves hl w hw)⟩
+
 /-- `concat_along_axis(split_along_axis(tree, idx, axis), axis) == tree` for every tree (leaves of
  different sizes) and every index, negative and out-of-range ones included -/
 theorem concat_split (leaves : List (List (List K))) (idx : Int)
@@ -208,6 +273,39 @@ theorem concat_split (leaves : List (List (List K))) (idx : Int)
   have : leaves.all (fun leaf => allSame (leaf.map List.length)) = true := by
     simpa [List.all_eq_true] using hleaf
   simp [this]
+
+/-- every entry of `zipWith (· ++ ·) a b` is `x ++ y` with `x ∈ a`, `y ∈ b` -/
+theorem mem_zipWith_append {β : Type} (a b : List (List β)) (leaf : List β)
+    (h : leaf ∈ List.zipWith (· ++ ·) a b) : ∃ x ∈ a, ∃ y ∈ b, leaf = x ++ y := by
+  induction a generalizing b with
+  | nil => simp at h
+  | cons x xs ih =>
+    cases b with
+    | nil => simp at h
+    | cons y ys =>
+      simp only [List.zipWith_cons_cons, List.mem_cons] at h
+      rcases h with h | h
+      · exact ⟨x, by simp, y, by simp, h⟩
+      · obtain ⟨x', hx', y', hy', e⟩ := ih ys h
+        exact ⟨x', by simp [hx'], y', by simp [hy'], e⟩
+
+/-- the forward operation succeeds: `concat_along_axis([a, b], axis)` returns the leaf-wise
+ concatenation for two trees with the same number of leaves whose slices all have the same width -/
+theorem concat_ok_two (a b : List (List (List K))) (hlen : b.length = a.length) (w : Nat)
+    (hw : ∀ l ∈ a ++ b, ∀ row ∈ l, row.length = w) :
+    concat [a, b] = .ok (List.zipWith (· ++ ·) a b) := by
+  have hall : ((List.zipWith (· ++ ·) a b).all fun leaf => allSame (leaf.map List.length)) = true := by
+    simp only [List.all_eq_true]
+    intro leaf hleaf
+    apply allSame_of_forall_eq _ w
+    intro c hc
+    simp only [List.mem_map] at hc
+    obtain ⟨row, hrow, rfl⟩ := hc
+    obtain ⟨x, hx, y, hy, rfl⟩ := mem_zipWith_append a b leaf hleaf
+    rcases List.mem_append.1 hrow with h | h
+    · exact hw x (by simp [hx]) row h
+    · exact hw y (by simp [hy]) row h
+  simp [concat, hlen, hall]
 
 /-- splitting the concatenation of two trees where the first one has `n` slices in every leaf gives
  the two trees back -/
@@ -240,6 +338,14 @@ theorem split_concat (a b c : List (List (List K))) (n : Nat) (ha : ∀ l ∈ a,
           refine ⟨⟨?_, ih'.1⟩, ?_, ih'.2⟩
           · rw [← hx]; simp
           · rw [← hx]; simp
+
+/-- unconditional form of `split_concat`: for two trees with the same number of leaves and one slice
+ width, where every leaf of the first has `n` slices, the concatenation returns and splitting it at
+ `n` gives the two trees back -/
+theorem split_concat_consistent (a b : List (List (List K))) (n : Nat) (ha : ∀ l ∈ a, l.length = n)
+    (hlen : b.length = a.length) (w : Nat) (hw : ∀ l ∈ a ++ b, ∀ row ∈ l, row.length = w) :
+    ∃ c, concat [a, b] = .ok c ∧ splitAlong c (n : Int) = (a, b) :=
+  ⟨_, concat_ok_two a b hlen w hw, split_concat a b _ n ha (concat_ok_two a b hlen w hw)⟩
 
 /-- `concat_along_axis(split_axis(tree, axis, keep_dims=True), axis) == tree` -/
 theorem concat_splitAxis (leaves : List (List (List K))) (trees : List (List (List (List K))))
@@ -281,6 +387,38 @@ theorem concat_splitAxis (leaves : List (List (List K))) (trees : List (List (Li
           simpa [List.all_eq_true] using hleaf
         simp [this]
     · cases h
+
+/-- the forward operation succeeds: `split_axis(tree, axis, keep_dims=True)` returns one tree per index
+ for every non-empty list of leaves that all have the same non-zero number `n` of slices -/
+theorem splitAxis_ok (leaves : List (List (List K))) (hl : leaves ≠ []) (n : Nat) (hn : n ≠ 0)
+    (hlen : ∀ l ∈ leaves, l.length = n) :
+    splitAxis leaves = .ok ((List.range n).map (fun i => leaves.map (fun l => slice l i (i + 1)))) := by
+  cases leaves with
+  | nil => exact absurd rfl hl
+  | cons x xs =>
+    have hx : x.length = n := hlen x (by simp)
+    have hxs : ∀ a ∈ xs.map List.length, a = n := by
+      intro a ha
+      simp only [List.mem_map] at ha
+      obtain ⟨l, hl', rfl⟩ := ha
+      exact hlen l (by simp [hl'])
+    have hall : (xs.map List.length).all (· == n) = true := by
+      simp only [List.all_eq_true, beq_iff_eq]
+      exact hxs
+    simp only [splitAxis, List.map_cons, hx, hall, if_true, hn, if_false]
+
+/-- unconditional form of `concat_splitAxis`: on every non-empty list of leaves with `n ≠ 0` slices
+ each and one slice width, `split_axis` returns and concatenating its trees gives the leaves back -/
+theorem concat_splitAxis_consistent (leaves : List (List (List K))) (hl : leaves ≠ []) (n : Nat) (hn : n ≠ 0)
+    (hlen : ∀ l ∈ leaves, l.length = n) (w : Nat) (hw : ∀ l ∈ leaves, ∀ row ∈ l, row.length = w) :
+    ∃ trees, splitAxis leaves = .ok trees ∧ concat trees = .ok leaves := by
+  refine ⟨_, splitAxis_ok leaves hl n hn hlen, concat_splitAxis leaves _ ?_ (splitAxis_ok leaves hl n hn hlen)⟩
+  intro l hl'
+  apply allSame_of_forall_eq _ w
+  intro a ha
+  simp only [List.mem_map] at ha
+  obtain ⟨row, hr, rfl⟩ := ha
+  exact hw l hl' row hr
 
 /-- `split_axis(tree, axis, keep_dims=False)` is the transpose: leaf `j` of tree `i` is slice `i`
  of leaf `j` (so stacking the `j`-th leaves back along the axis gives leaf `j`) -/
@@ -362,7 +500,11 @@ theorem resample_roundtrip [Zero K] (c1 c2 : Horiz) (sameVertical expectSame : B
 
 /-- up-sampling represents the same function: with basis functions that do not depend on the
  truncation (prefix stability of the Fourier–Legendre basis) the series with the zero-padded
- coefficients has the same value, at every point (`b i j` is the value of basis function `(i, j)`) -/
+ coefficients has the same value, at every point (`b i j` is the value of basis function `(i, j)`).
+ Prefix stability is a *hypothesis*, built into the single family `b : Nat → Nat → K` used for both
+ truncations; it is not proved here for the real bases (C01 for the Legendre recurrence; for both
+ transform implementations it is probed by synthesis on a shared nodal grid in `harness/props/C19.py`,
+ i.e. "same function on the finer grid" is test-level for the real code) -/
 theorem upsample_same_series [Semiring K] (b : Nat → Nat → K) (c1 c2 : Horiz) (sameVertical expectSame : Bool)
     (x y : List (List K)) (h : upsampleFn c1 c2 sameVertical expectSame x = .ok y) :
     series b y = series b x := by
@@ -489,9 +631,12 @@ theorem inferDims_standard (layers m0 m1 n0 n1 : Nat) (times samples : Option Na
       ([], []) (by rw [hent]; rfl) (by simp)
     rwa [hpre0] at this
 
-/-- the other collision: when the nodal shape equals the modal shape, axes cannot be told apart by
- shape and the later assignment wins — every 3-d array is labelled `(level, lon, lat)` (also modal
- data), every 2-d array `(longitudinal_mode, total_wavenumber)` (also nodal data), silently -/
+/-- the other collision (**known finding** `modal-equals-nodal-shape`, measured on the real code in
+ every run, e.g. `Grid(longitude_wavenumbers=5, total_wavenumbers=7, longitude_nodes=10,
+ latitude_nodes=7, FastSphericalHarmonics)`): when the nodal shape equals the modal shape, axes cannot
+ be told apart by shape and the later assignment wins — every 3-d array is labelled
+ `(level, lon, lat)` (also modal data), every 2-d array `(longitudinal_mode, total_wavenumber)` (also
+ nodal data), silently -/
 theorem inferDims_modal_eq_nodal_collision (layers a b : Nat) (times samples : Option Nat) (hL : layers ≠ 1) :
     let c : DimCfg := ⟨layers, [a, b], [a, b], [], times, samples⟩
     let pre := samples.toList ++ times.toList
@@ -634,6 +779,21 @@ example : unpack [[1, 2], [3, 4], [5, 6]] [1, 9, 1] = .ok [[[1, 2]], [[3, 4], [5
 example : stack [[1, 2], [3, 4]] = .ok (some [[1, 2], [3, 4]]) := by decide
 example : splitAxis [[[1, 2], [3, 4]], [[5], [6]]] = .ok [[[[1, 2]], [[5]]], [[[3, 4]], [[6]]]] := by decide
 example : concat [[[[1, 2]], [[5]]], [[[3, 4]], [[6]]]] = .ok [[[1, 2], [3, 4]], [[5], [6]]] := by decide
+
+/-- the hypotheses of the unconditional inverse theorems hold on non-trivial leaves: three leaves with
+ 2, 0 and 1 slices of width 2 (pack); two leaves of size 2 (stack); two trees of two leaves (concat);
+ two leaves with 2 slices of width 2 each (split_axis) -/
+example : ∃ arr, pack [[[1, 2], [3, 4]], [], [[5, 6]]] = .ok (some arr) ∧
+    unpack arr [2, 0, 1] = .ok [[[1, 2], [3, 4]], [], [[5, 6]]] :=
+  unpack_pack_consistent (K := Nat) _ (by simp) 2 (by simp)
+example : ∃ arr, stack [[1, 2], [3, 4]] = .ok (some arr) ∧ unstack arr 2 = .ok [[1, 2], [3, 4]] :=
+  unstack_stack_consistent (K := Nat) _ (by simp) 2 (by simp)
+example : ∃ c, concat [[[[1, 2]], [[5, 6]]], [[[3, 4]], []]] = .ok c ∧
+    splitAlong c (1 : Nat) = ([[[1, 2]], [[5, 6]]], [[[3, 4]], []]) :=
+  split_concat_consistent (K := Nat) _ _ 1 (by simp) (by simp) 2 (by simp)
+example : ∃ trees, splitAxis [[[1, 2], [3, 4]], [[5, 7], [6, 8]]] = .ok trees ∧
+    concat trees = .ok [[[1, 2], [3, 4]], [[5, 7], [6, 8]]] :=
+  concat_splitAxis_consistent (K := Nat) _ (by simp) 2 (by simp) (by simp) 2 (by simp)
 
 /-- a proper up-sampling pair: `(M, L) = (1, 2)`, modal shape `(1, 2)` to `(2, 3)`, shape `(3, 3)` -/
 example : upsampleFn (K := Int) ⟨1, 2, 1, 2⟩ ⟨2, 3, 3, 3⟩ true true [[5, 6]]
